@@ -169,14 +169,24 @@ class C07(Check):
             ctx.state(got_sym)
             if got_sym != want_sym:
                 ctx.fail("binding", "named references differ\nmodel          %r\nimplementation %r" % (want_sym, got_sym), case=q)
-            for label, circ in (("parse", c), ("expand_macros", None), ("fill_in_let", None), ("let+macros", None)):
+            for label, circ in (("parse", c), ("expand_macros", None), ("fill_in_let", None), ("let+macros", None), ("let+map", None), ("let+map+macros", None)):
                 try:
-                    if label == "expand_macros":
+                    if label == "let+map":
+                        circ = impl.fill_in_map(impl.fill_in_let(c))
+                    elif label == "let+map+macros":
+                        circ = impl.expand_macros(impl.fill_in_map(impl.fill_in_let(c)))
+                    elif label == "expand_macros":
                         circ = impl.expand_macros(c)
                     elif label == "fill_in_let":
                         circ = impl.fill_in_let(c)
                     elif label == "let+macros":
                         circ = impl.expand_macros(impl.fill_in_let(c))
+                except impl.JaqalError as ex:
+                    if label.startswith("let+map"):
+                        ctx.count("fill_in_map_not_applicable")  # e.g. a whole register passed to a macro
+                        continue
+                    ctx.fail("pass-raises", "%s: %s: %s" % (label, type(ex).__name__, ex), case=q)
+                    continue
                 except Exception as ex:  # noqa: BLE001
                     ctx.fail("pass-raises", "%s: %s: %s" % (label, type(ex).__name__, ex), case=q)
                     continue
